@@ -137,6 +137,17 @@ class WT:
         vals = f.module.assigns.get(e.id, []) if f is not None else []
         if len(vals) == 1 and isinstance(vals[0], ast.Constant):
             return ('const', vals[0].value)
+        # a module-level name for a library constant / dtype (`_F32 = np.float32`, `_FILL = np.nan`, `_T = np.dtype('f4')`): the
+        # thing it names
+        if len(vals) == 1 and isinstance(vals[0], ast.AST) and depth < self.maxdepth + 2:
+            v0 = vals[0]
+            simple = isinstance(v0, ast.Attribute) and isinstance(v0.value, ast.Name) and v0.value.id in ('np', 'numpy', 'da', 'math')
+            dtc = isinstance(v0, ast.Call) and isinstance(v0.func, ast.Attribute) and v0.func.attr == 'dtype' and len(v0.args) == 1 and \
+                isinstance(v0.args[0], (ast.Constant, ast.Attribute))
+            if simple:
+                return self.ev(f, v0, {}, depth + 1)
+            if dtc:
+                return self.ev(f, v0.args[0], {}, depth + 1)
         return ('global', e.id)
 
     def e_Constant(self, f, e, env, depth):
